@@ -363,3 +363,27 @@ func GenSchema(t *rapid.T, opt Options, comps Components) *Schema {
 	g := &genCtx{opt: opt, comps: comps, compList: comps.Names()}
 	return g.gen(t, 0)
 }
+
+// FormatMatrix is a fixed component table with one optional property per (type, format) pair of the
+// formats ogen maps to dedicated Go types and text forms, plus arrays and maps of a few of them.
+func FormatMatrix() Components {
+	obj := &Schema{Type: "object"}
+	add := func(typ string, formats []string) {
+		for _, f := range formats {
+			if f == "hostname" || f == "email" {
+				continue // these carry validators that random text fails; C03/C13 own them
+			}
+			name := typ[:1] + "_" + f
+			obj.Props = append(obj.Props, Prop{Name: name, Schema: &Schema{Type: typ, Format: f}})
+		}
+	}
+	add("string", stringFormats)
+	add("integer", integerFormats)
+	add("number", numberFormats)
+	arr := &Schema{Type: "object"}
+	for _, f := range []string{"uint64", "int64", "uuid", "date-time", "ip", "duration", "byte"} {
+		arr.Props = append(arr.Props, Prop{Name: "a_" + f, Schema: &Schema{Type: "array", Items: &Schema{Type: "string", Format: f}}})
+		arr.Props = append(arr.Props, Prop{Name: "m_" + f, Schema: &Schema{Type: "object", AddProps: &Schema{Type: "string", Format: f}}})
+	}
+	return Components{"F0": obj, "F1": arr}
+}
